@@ -1,7 +1,7 @@
 SPECIFICATION Spec
 CONSTANTS
   OpsAlphabet = {"+", "-", "*", "/", "%", "**", "^", "<", "<=", ">", ">=", "==", "!=", "&&", "||", "xor"}
-  MaxOps = 4
+  MaxOps = 2
   Unaries = {"none", "neg", "not", "tr"}
 INVARIANTS ClimbEqDecl Faithful Shape Emit
 CHECK_DEADLOCK FALSE
